@@ -3426,6 +3426,9 @@ class PlateSlicer(Slicer):
             raise TypeError("Substance must be a Substance or an Iterable of Substances.")
         if not isinstance(unit, str):
             raise TypeError("Unit must be a str.")
+        if Unit.parse_quantity(f"1 {unit}")[1] != 'L':
+            raise ValueError("Unit must be a unit of volume.")  # (as Container.get_volume: 'mol' is not an answer)
+        substance = list(dict.fromkeys(substance))  # (a substance listed twice is in the wells once)
 
         def helper(elem):
             amount = 0
@@ -3474,6 +3477,9 @@ class PlateSlicer(Slicer):
         if not isinstance(unit, str):
             raise TypeError("Unit must be a str.")
 
+        if Unit.parse_quantity(f"1 {unit}")[1] != 'mol':
+            raise ValueError("Unit must be a unit of moles.")  # (get_moles(s, 'L') answered litres)
+        substance = list(dict.fromkeys(substance))  # (a substance listed twice is in the wells once)
         precision = config.precisions[unit] if unit in config.precisions else config.precisions['default']
 
         def helper(elem):
